@@ -114,6 +114,22 @@ impl Sample for (i8, bool) {
     }
 }
 
+impl Sample for () {
+    const NAME: &'static str = "()";
+    fn nth(_: usize) {}
+}
+impl Sample for TooDee<u8> {
+    const NAME: &'static str = "TooDee<u8>";
+    fn nth(i: usize) -> TooDee<u8> {
+        match i % 4 {
+            0 => TooDee::default(),
+            1 => TooDee::from_vec(1, 1, vec![7]),
+            2 => TooDee::from_vec(2, 3, vec![1, 2, 3, 4, 5, 6]),
+            _ => TooDee::from_vec(3, 1, vec![9, 8, 7]),
+        }
+    }
+}
+
 fn run_type<T: Sample + Serialize + DeserializeOwned + PartialEq + std::fmt::Debug + Clone>(c: usize, r: usize, ctx: &mut Ctx) {
     // several fillings per shape: rotate the sample values
     let n = c * r;
@@ -249,6 +265,8 @@ impl Prop for C18P {
             run_type::<Vec<u8>>(c, r, ctx);
             run_type::<[u8; 2]>(c, r, ctx);
             run_type::<(i8, bool)>(c, r, ctx);
+            run_type::<()>(c, r, ctx);
+            run_type::<TooDee<u8>>(c, r, ctx);
         }
     }
     fn rule(&self) -> String {
